@@ -44,7 +44,9 @@ type vCall struct {
 
 func (s *vSub) Input() schema.Scope                                    { return &vScope{} }
 func (s *vSub) DAG() dgraph.DirectedGraph[*workflow.DAGItem]           { return nil }
-func (s *vSub) OutputSchema() map[string]*schema.StepOutputSchema      { return nil }
+func (s *vSub) OutputSchema() map[string]*schema.StepOutputSchema {
+	return map[string]*schema.StepOutputSchema{"success": schema.NewStepOutputSchema(schema.NewScopeSchema(schema.NewObjectSchema("item", map[string]*schema.PropertySchema{})), nil, false)}
+}
 func (s *vSub) Namespaces() map[string]map[string]*schema.ObjectSchema { return nil }
 
 func verifAtomicEnter(s *vSub, item any) int {
@@ -99,6 +101,7 @@ type vHandler struct {
 	completes     int
 	closeReturned bool
 	lateNotify    bool
+	schemas       map[string]*schema.StepOutputSchema
 }
 
 func newHandler() *vHandler { return &vHandler{finished: map[string]bool{}, failed: map[string]bool{}} }
@@ -120,6 +123,13 @@ func (h *vHandler) verifAtomicNote(ev vEvent) {
 			h.finished[ev.prev] = true
 			if ev.hasOut {
 				verifrt.Assert(verifDeclared[ev.prev][ev.out], "every reported stage output is declared by the lifecycle")
+				if h.schemas != nil {
+					os := h.schemas[ev.prev+"."+ev.out]
+					verifrt.Assert(os != nil, "the real Lifecycle() declares the reported output")
+					if os != nil {
+						verifrt.Assert(verifConforms(os.Schema(), ev.data), "engine-generated stage output "+ev.prev+"."+ev.out+" conforms to the schema the provider declares for it")
+					}
+				}
 			}
 		}
 		if ev.kind == "complete" {
@@ -174,4 +184,79 @@ func (h *vHandler) completion() *vEvent {
 		}
 	}
 	return nil
+}
+
+// verifConforms: data is the serialized form (maps with string keys, lists, scalars) of the object schema.
+func verifConforms(sc schema.Scope, data any) bool {
+	ss, ok := sc.(*schema.ScopeSchema)
+	if !ok {
+		return true // not a plain scope: outside the walker
+	}
+	return verifConformsObject(ss.RootObject(), data)
+}
+
+func verifConformsObject(o *schema.ObjectSchema, data any) bool {
+	var keys []string
+	get := func(k string) (any, bool) { return nil, false }
+	switch m := data.(type) {
+	case map[any]any:
+		for k := range m {
+			ks, ok := k.(string)
+			if !ok {
+				return false
+			}
+			keys = append(keys, ks)
+		}
+		get = func(k string) (any, bool) { v, ok := m[k]; return v, ok }
+	case map[string]any:
+		for k := range m {
+			keys = append(keys, k)
+		}
+		get = func(k string) (any, bool) { v, ok := m[k]; return v, ok }
+	default:
+		return false // engine-generated outputs must be in serialized (map) form to be usable by expressions
+	}
+	props := o.Properties()
+	for _, k := range keys {
+		if _, ok := props[k]; !ok {
+			return false
+		}
+	}
+	for name, p := range props {
+		v, present := get(name)
+		if !present {
+			if p.RequiredValue {
+				return false
+			}
+			continue
+		}
+		switch p.TypeID() {
+		case schema.TypeIDBool:
+			if _, ok := v.(bool); !ok {
+				return false
+			}
+		case schema.TypeIDString:
+			if _, ok := v.(string); !ok {
+				return false
+			}
+		case schema.TypeIDInt:
+			if _, ok := v.(int64); !ok {
+				return false
+			}
+		}
+	}
+	return true
+}
+
+
+func verifSchemas(sub *vSub) map[string]*schema.StepOutputSchema {
+	life, err := (&runnableStep{workflow: sub, logger: vLogger{}}).Lifecycle(nil)
+	verifrt.Assert(err == nil, "Lifecycle() succeeds")
+	res := map[string]*schema.StepOutputSchema{}
+	for _, st := range life.Stages {
+		for id, os := range st.Outputs {
+			res[st.ID+"."+id] = os
+		}
+	}
+	return res
 }
